@@ -236,6 +236,16 @@ Definition run (fn : str) (args : list str) : str :=
             | _ => s2l "-" end
         | Err _ => s2l "ERR" | Fuel => s2l "FUEL" end
     | _ => s2l "?" end
+  else if str_eqb fn (s2l "relto") then
+    (* args: one string per path; nodes separated by code point 2; a node is 'F' or 'N' followed by its directory *)
+    bool_str true ++
+    match relto (map (fun p => map (fun n => match n with
+                                             | c :: d => mkPN (c =? 70) d
+                                             | [] => mkPN false [] end)
+                                   (match p with [] => [] | _ => split_on 2 p end)) args) with
+    | Some d => 83 :: d
+    | None => [78]
+    end
   else if str_eqb fn (s2l "add_src") then
     (* args: old members separated by code point 2, new files separated by 2 (unsorted result) *)
     match args with
